@@ -146,7 +146,8 @@ PROPS = {
     },
     "C15": {
         "pkg": "hcatalog", "test": "TestC15", "level": "exploration",
-        "quick": T(8, 150, timeout=900), "thorough": T(16, 15000, timeout=7000),
+        "quick": T(8, 0, timeout=900, tests=[{"test": "TestC15", "checks": 150}, {"test": "TestC15_MovingSource", "checks": 100}]),
+        "thorough": T(16, 0, timeout=7000, tests=[{"test": "TestC15", "checks": 15000}, {"test": "TestC15_MovingSource", "checks": 8000}]),
         "rule": "generated catalogs in a real embedded etcd: default + 0..2 named databases (at most one tombstoned, only with a milvus target), per (database, name in {c1,c2}) 0..2 dropped incarnations (Dropped / Dropping / tombstone) "
                 "followed by an optional live one (Created, or Creating in 1/6), partitions _default + p1/p2 with 0..2 dropped incarnations and an optional live one, increasing create times, TSO value, target nil or fake "
                 "(answers the downstream database of collections whose source database is gone, or not-found). Oracle: GetAllDroppedObj() compared as maps with a reference written from the statement (keys via util.Get*InfoKeys on the object's "
